@@ -1,6 +1,7 @@
 (* C14 — REPP character spans point back to the original text. *)
 From Coq Require Import List NArith ZArith Bool.
 From PyD Require Import Base.Str Base.PySlice Model.Repp Proofs.ReppP.
+From PyD Require Import Proofs.ReppGroupP.
 Import ListNotations.
 
 (* every step of every program has one map entry per output position plus
@@ -55,3 +56,16 @@ Theorem C14_gap_provenance_all : forall s ms tr un st,
     nth_error (st_emap st) (S j) = Some (Z.of_nat o - Z.of_nat j)%Z.
 Proof. exact rule_gap_provenance_all. Qed.
 Print Assumptions C14_gap_provenance_all.
+
+(* every character carried over through a capture group that the template
+   references in order is attributed to exactly its original position (start
+   and end maps), whatever earlier matches and earlier segments of the same
+   match inserted or deleted; optional groups that did not take part and empty
+   groups contribute nothing *)
+Theorem C14_group_provenance : forall s ms tr un st,
+  ms <> [] -> apply_rule s ms tr un = Some st -> ms_ok s ms 0 ->
+  forall j o, In (j, o) (all_grp_pairs s ms tr un 0 0) ->
+    nth_error (st_smap st) (S j) = Some (Z.of_nat o - Z.of_nat j)%Z /\
+    nth_error (st_emap st) (S j) = Some (Z.of_nat o - Z.of_nat j)%Z.
+Proof. exact rule_group_provenance. Qed.
+Print Assumptions C14_group_provenance.
